@@ -291,5 +291,6 @@ instance : NumOps Float where
   fmtG := fmtG
   parse := parseFloat
   fmtGeneral := fmtGeneral
+  maxFloat := ofBitsNat (2046 * two52 + (two52 - 1))
 
 end XlModel.CalcFloat
